@@ -34,12 +34,33 @@ func ruleNoRawHoleyReslice(p *Program, r *Report) {
 			r.Undecided("trimmer@"+n, "trimming constructor not found", 0)
 			continue
 		}
+		// re-slices in the constructor itself or in the package-local helpers it hands its store to
 		slices := 0
-		ForEachInstr(f, func(ins ssa.Instruction) {
-			if s, ok := ins.(*ssa.Slice); ok && (s.Low != nil || s.High != nil) {
-				slices++
+		seenT := map[*ssa.Function]bool{}
+		var countSlices func(g *ssa.Function, depth int)
+		countSlices = func(g *ssa.Function, depth int) {
+			if seenT[g] || depth > 2 {
+				return
 			}
-		})
+			seenT[g] = true
+			ForEachInstr(g, func(ins ssa.Instruction) {
+				switch x := ins.(type) {
+				case *ssa.Slice:
+					if x.Low != nil || x.High != nil {
+						slices++
+					}
+				case *ssa.Call:
+					if h := x.Call.StaticCallee(); h != nil && h.Pkg == f.Pkg && h.Blocks != nil && h != f {
+						for _, a := range x.Call.Args {
+							if _, isSl := a.Type().Underlying().(*types.Slice); isSl {
+								countSlices(h, depth+1)
+							}
+						}
+					}
+				}
+			})
+		}
+		countSlices(f, 0)
 		r.Check(slices >= 2, "trimmer@"+n, "re-slices its argument at both ends", n+" no longer trims both ends of the store it is given", f.Pos())
 	}
 	n := 0
@@ -299,7 +320,7 @@ func ruleLayoutIndependentHash(p *Program, r *Report) {
 // (@, x) pair twice, so the derived field must come from a counter that is incremented only when the slot was
 // still empty — not from the number of inputs.
 func ruleDerivedCountDistinctSlots(p *Program, r *Report) {
-	r.Begin("R02f", "derived counts of slot builders: in every function of package rel that returns a sequence value around a freshly made slot table filled by computed index, the derived field (Array.count, String.holes) depends on a counter incremented under a test of the slot's previous content — a count taken from the number of inputs gives a second, unequal representation of the same value when an input is repeated", 2)
+	r.Begin("R02f", "derived counts of slot builders: in every function of package rel that returns a sequence value around a freshly made slot table filled by computed index, the derived field (Array.count, String.holes) depends on a counter incremented under a test of the slot's previous content — a count taken from the number of inputs gives a second, unequal representation of the same value when an input is repeated", 1)
 	defer r.End()
 	relPkg := p.Pkg("rel")
 	derived := map[string]string{"rel.Array": "count", "rel.String": "holes"}
@@ -351,10 +372,29 @@ func ruleDerivedCountDistinctSlots(p *Program, r *Report) {
 				continue
 			}
 			// the store is a slot table made here and filled by computed index
-			var table *ssa.MakeSlice
+			var table ssa.Value
 			DependsOn(l.stV, func(x ssa.Value) bool {
-				if mk, ok := x.(*ssa.MakeSlice); ok && table == nil {
-					table = mk
+				if table != nil {
+					return false
+				}
+				switch y := x.(type) {
+				case *ssa.MakeSlice:
+					table = y
+				case *ssa.Call:
+					// a table made by a package-local helper (e.g. one that also fills it with the hole marker)
+					if g := y.Call.StaticCallee(); g != nil && g.Pkg == relPkg && g.Blocks != nil {
+						if _, isSl := y.Type().Underlying().(*types.Slice); isSl {
+							makes := false
+							ForEachInstr(g, func(i2 ssa.Instruction) {
+								if _, ok := i2.(*ssa.MakeSlice); ok {
+									makes = true
+								}
+							})
+							if makes {
+								table = y
+							}
+						}
+					}
 				}
 				return false
 			})
@@ -364,7 +404,7 @@ func ruleDerivedCountDistinctSlots(p *Program, r *Report) {
 			filled := false
 			ForEachInstr(fn, func(ins ssa.Instruction) {
 				if st, ok := ins.(*ssa.Store); ok {
-					if ia, ok := st.Addr.(*ssa.IndexAddr); ok && ia.X == ssa.Value(table) {
+					if ia, ok := st.Addr.(*ssa.IndexAddr); ok && ia.X == table {
 						if _, isConst := ia.Index.(*ssa.Const); !isConst {
 							if _, isNeg := st.Val.(*ssa.Const); !isNeg { // initialising the table with the hole marker is not filling it
 								filled = true
@@ -397,7 +437,7 @@ func ruleDerivedCountDistinctSlots(p *Program, r *Report) {
 							return false
 						}
 						ia, ok := ld.X.(*ssa.IndexAddr)
-						return ok && ia.X == ssa.Value(table)
+						return ok && ia.X == table
 					}) {
 						return true
 					}
@@ -407,8 +447,8 @@ func ruleDerivedCountDistinctSlots(p *Program, r *Report) {
 			r.Check(guardedCounter, "distinct-slots@"+FnName(fn), "the derived field comes from a counter guarded by the slot's previous content", fmt.Sprintf("%s fills a fresh slot table by index and derives %s.%s from something other than the number of distinct slots it filled (e.g. the number of inputs): when the same (@, x) pair is supplied twice the value gets a wrong count and is no longer equal to, nor collapses with, the same sequence built any other way", FnName(fn), l.tname, derived[l.tname]), l.pos)
 		}
 	}
-	if n < 2 {
-		r.Undecided("sites", fmt.Sprintf("only %d slot builders with a derived field found (asArray, asString confirmed)", n), 0)
+	if n < 1 {
+		r.Undecided("sites", "no slot builder with a derived field found (asArray, asString confirmed)", 0)
 	}
 }
 
